@@ -1,72 +1,106 @@
 (* C19 - property theorems only.  Each is closed by [exact lemma]; Print Assumptions beneath.
-   Model.C19 is HandleLimiter.write/prune/close over an abstract file system; [orc i p n] is the
-   operating system: does the i-th open() of the run, for path p, with n descriptors open, fail?
-   [fixed c = true] is the repaired retry path (fixes/C19-D27.patch). *)
+   hl_run_ops / hl_close_all (Model.C19) are HandleLimiter.write/prune/close over an abstract file system,
+   DEFINED WITH the decisions regenerated from handlelimiter.py on every run (Gen/GenHandles.v: append test
+   and open modes, where seen.add happens, handler class, retry test, placeholder restore, prune trigger /
+   count / victim order, what close() clears, initial state, write guard).  [orc i p n] is the operating
+   system: does the i-th open() of the run, for path p, with n descriptors open, fail (with any errno)?
+   mh / pe are maxHandles / pruneEvery (any integers). *)
 From Coq Require Import ZArith List Bool.
 Import ListNotations.
-From SCMO Require Import Lib.Val Model.C19 Proofs.C19 Proofs.C19_split Proofs.C19_leak.
+From SCMO Require Import Lib.Val Gen.GenHandles Model.C19 Proofs.C19 Proofs.C19_split Proofs.C19_leak Proofs.C19_tie Proofs.C19_main.
 Open Scope Z_scope.
 
-(* MAIN.  For every write sequence, every maxHandles / pruneEvery (any integers) and every fault
-   oracle under which an open succeeds whenever no other handle is open: no call raises, every handle
-   is closed by close(), and every file holds exactly the concatenation of the strings written to it,
-   in order; files never written keep their content. (forceAppend not used - as in FastqHandle.) *)
-Theorem C19_content : forall c orc init ops,
-  fixed c = true -> (forall o, In o ops -> w_fa o = false) ->
+(* MAIN.  For every write sequence, every maxHandles / pruneEvery and every fault oracle under which an
+   open succeeds whenever no other handle is open: no call raises, every handle is closed by close(), and
+   every file holds exactly the concatenation of the strings written to it, in order; files never written
+   keep their content. (forceAppend not used - as in FastqHandle.) *)
+Theorem C19_content : forall mh pe orc init ops,
+  (forall o, In o ops -> w_fa o = false) ->
   (forall i o, In o ops -> orc i (w_path o) 0%nat = false) ->
-  exists st, run_ops c orc init ops = (length ops, Ok st) /\
-             opens (close_all st) = [] /\
-             (forall p, In p (map w_path ops) -> fs (close_all st) p = Some (writes_of p ops)) /\
-             (forall p, ~ In p (map w_path ops) -> fs (close_all st) p = init p).
-Proof. exact content_plain. Qed.
+  exists st, hl_run_ops mh pe orc init ops = (length ops, Ok st) /\
+             opens (hl_close_all st) = [] /\
+             (forall p, In p (map w_path ops) -> fs (hl_close_all st) p = Some (writes_of p ops)) /\
+             (forall p, ~ In p (map w_path ops) -> fs (hl_close_all st) p = init p).
+Proof. exact hl_content_plain. Qed.
 Print Assumptions C19_content.
 
 (* the same with forceAppend used consistently per path: a force-appended file keeps what it held *)
-Theorem C19_content_append : forall c orc init ops,
-  fixed c = true -> fa_consistentb ops = true ->
+Theorem C19_content_append : forall mh pe orc init ops,
+  fa_consistentb ops = true ->
   (forall i o, In o ops -> orc i (w_path o) 0%nat = false) ->
-  exists st, run_ops c orc init ops = (length ops, Ok st) /\
-             opens (close_all st) = [] /\
-             forall p, fs (close_all st) p = expected init ops p.
-Proof. exact content_thm. Qed.
+  exists st, hl_run_ops mh pe orc init ops = (length ops, Ok st) /\
+             opens (hl_close_all st) = [] /\
+             forall p, fs (hl_close_all st) p = expected init ops p.
+Proof. exact hl_content_thm. Qed.
 Print Assumptions C19_content_append.
 
 (* ANY oracle (no assumption on faults): when the run stops after k completed calls, the files hold
    exactly the first k writes - nothing lost, nothing duplicated, nothing of the failed call. *)
-Theorem C19_prefix : forall c orc init ops k r,
-  fixed c = true -> fa_consistentb ops = true ->
-  run_ops c orc init ops = (k, r) ->
+Theorem C19_prefix : forall mh pe orc init ops k r,
+  fa_consistentb ops = true ->
+  hl_run_ops mh pe orc init ops = (k, r) ->
   (k <= length ops)%nat /\
-  (forall p, fs (close_all (state_of r)) p = expected init (firstn k ops) p) /\
+  (forall p, fs (hl_close_all (state_of r)) p = expected init (firstn k ops) p) /\
   (k = length ops <-> exists st, r = Ok st).
-Proof. exact prefix. Qed.
+Proof. exact hl_prefix. Qed.
 Print Assumptions C19_prefix.
 
 (* ANY oracle: a call raises only the OSError of an open() of its own path that failed while no
    descriptor at all was open (the last open() call made), i.e. after everything else was closed. *)
-Theorem C19_raise_only_if_hopeless : forall c orc init ops k e st,
-  fixed c = true -> run_ops c orc init ops = (k, Raise e st) ->
+Theorem C19_raise_only_if_hopeless : forall mh pe orc init ops k e st,
+  hl_run_ops mh pe orc init ops = (k, Raise e st) ->
   e = EOS /\ exists o i, nth_error ops k = Some o /\ att st = S i /\
                          orc i (w_path o) 0%nat = true /\ opens st = [].
-Proof. exact raise_only_if_hopeless. Qed.
+Proof. exact hl_raise_only_if_hopeless. Qed.
 Print Assumptions C19_raise_only_if_hopeless.
 
-(* ANY oracle, repaired or not: between calls at most max(0,maxHandles) + max(0,pruneEvery-1)
-   handles are open (every prefix of a write sequence is a write sequence). *)
-Theorem C19_handles_bounded : forall c orc init ops k r,
-  run_ops c orc init ops = (k, r) ->
-  Z.of_nat (length (opens (state_of r))) <= Z.max 0 (maxHandles c) + Z.max 0 (pruneEvery c - 1).
-Proof. exact handles_bounded. Qed.
+(* ANY oracle: between calls at most max(0,maxHandles) + max(0,pruneEvery-1) handles are open
+   (every prefix of a write sequence is a write sequence). *)
+Theorem C19_handles_bounded : forall mh pe orc init ops k r,
+  hl_run_ops mh pe orc init ops = (k, r) ->
+  Z.of_nat (length (opens (state_of r))) <= Z.max 0 mh + Z.max 0 (pe - 1).
+Proof. exact hl_handles_bounded. Qed.
 Print Assumptions C19_handles_bounded.
 
 (* ANY oracle: after close() the writer has closed exactly as many descriptors as it opened - whether the run
    completed or stopped at a raise (n_opened / n_closed count the successful open() and the close() calls
    of the OS-call trace) *)
-Theorem C19_no_leak : forall c orc init ops k r, fixed c = true ->
-  run_ops c orc init ops = (k, r) ->
-  n_opened (trace (close_all (state_of r))) = n_closed (trace (close_all (state_of r))).
-Proof. exact no_leak. Qed.
+Theorem C19_no_leak : forall mh pe orc init ops k r,
+  hl_run_ops mh pe orc init ops = (k, r) ->
+  n_opened (trace (hl_close_all (state_of r))) = n_closed (trace (hl_close_all (state_of r))).
+Proof. exact hl_no_leak. Qed.
 Print Assumptions C19_no_leak.
+
+(* T: the shape of the regenerated decisions (each conjunct is one shape lemma of Proofs/C19_tie.v) and the
+   identity of the model built from them with the reference kernel of the invariant proofs *)
+Theorem C19_kernel_shape :
+  g_init_ctr = 0 /\ g_init_clean = true /\
+  (forall is_open, g_write_guard is_open = negb is_open) /\
+  (forall in_seen force, g_append_test in_seen force = in_seen || force) /\
+  (forall a gz, g_opens_append a gz = a) /\
+  (forall a ok, g_seen_added a ok = negb a && ok) /\
+  g_handler_catches true = true /\
+  (forall n, g_retry n = (1 <? n)) /\
+  g_restores_placeholder = true /\
+  (forall c, g_ctr_step c = c + 1) /\
+  (forall c pe, g_prune_due c pe = (pe <=? c)) /\
+  (forall n mh, g_prune_needed n mh = (mh <? n)) /\
+  (forall n mh, g_to_prune n mh = n - mh) /\
+  (forall w, g_victim_key w = w) /\ g_sort_descending = false /\
+  g_prune_ctr = 0 /\ g_prune_keeps_seen = true /\
+  g_close_clears_seen = false /\ g_close_resets_ctr = false.
+Proof.
+  exact (conj s_init_ctr (conj s_init_clean (conj s_write_guard (conj s_append_test (conj s_opens_append
+        (conj s_seen_added (conj s_handler (conj s_retry (conj s_restores (conj s_ctr_step (conj s_prune_due
+        (conj s_prune_needed (conj s_to_prune (conj s_victim_key (conj s_sort_descending (conj s_prune_ctr
+        (conj s_prune_keeps_seen (conj s_close_clears_seen s_close_resets_ctr)))))))))))))))))).
+Qed.
+Print Assumptions C19_kernel_shape.
+
+Theorem C19_tie : forall mh pe orc init ops,
+  hl_run_ops mh pe orc init ops = run_ops {| maxHandles := mh; pruneEvery := pe; fixed := true |} orc init ops.
+Proof. exact tie_run_ops. Qed.
+Print Assumptions C19_tie.
 
 (* the concrete fault scripts of the correspondence check: script_goodb (mode 1 of run_C19) implies
    the oracle hypothesis of C19_content *)
@@ -75,7 +109,7 @@ Theorem C19_script_good : forall s ops, script_goodb s ops = true ->
 Proof. exact script_good_sound. Qed.
 Print Assumptions C19_script_good.
 
-(* D27: the code as found ([fixed := false]) violates C19_content: EMFILE limit 2, second file's open
+(* D27: the code before the repair (reference kernel with [fixed := false]: no placeholder restore) violates C19_content: EMFILE limit 2, second file's open
    fails, close() drops the placeholder, the retry opens the file and then raises KeyError: the record is
    lost, the file is left empty and its descriptor is not tracked. *)
 Theorem C19_unrepaired_refuted :
@@ -98,13 +132,12 @@ Print Assumptions C19_unrepaired_leaks.
 (* non-vacuity: the same input on the repaired model satisfies the hypotheses of C19_content, goes through
    the recovery branch (a failed open with one handle open, close-all, retry) and a re-open in append mode *)
 Example C19_recovery_example :
-  let c := {| maxHandles := 1; pruneEvery := 1; fixed := true |} in
   let ops := d27_ops ++ [ {| w_path := 162; w_str := [50; 59]; w_fa := false |} ] in
   script_goodb d27_script ops = true /\
   (forall o, In o ops -> w_fa o = false) /\
-  let '(k, r) := run_ops c (script_oracle d27_script) (assoc_fs [(109, [111; 108; 100])]) ops in
+  let '(k, r) := hl_run_ops 1 1 (script_oracle d27_script) (assoc_fs [(109, [111; 108; 100])]) ops in
   k = 3%nat /\
-  rev (trace (close_all (state_of r))) =
+  rev (trace (hl_close_all (state_of r))) =
     [EvOpen 162 false 0 true; EvOpen 109 false 1 false; EvClose 162; EvOpen 109 false 0 true;
      EvOpen 162 true 1 true; EvClose 109; EvClose 162] /\
   fs (state_of r) 162 = Some [48; 59; 50; 59] /\ fs (state_of r) 109 = Some [49; 59].
@@ -117,9 +150,8 @@ Print Assumptions C19_recovery_example.
 (* non-vacuity of C19_raise_only_if_hopeless / C19_prefix: a permanently failing path raises at its call,
    after which the files hold exactly the completed writes *)
 Example C19_hopeless_example :
-  let c := {| maxHandles := 4; pruneEvery := 2; fixed := true |} in
   let s := {| s_limit := 0; s_soft := []; s_hard := []; s_perm := [109] |} in
-  let '(k, r) := run_ops c (script_oracle s) (fun _ => None) d27_ops in
+  let '(k, r) := hl_run_ops 4 2 (script_oracle s) (fun _ => None) d27_ops in
   k = 1%nat /\ (exists st, r = Raise EOS st) /\
   fs (state_of r) 162 = Some [48; 59] /\ fs (state_of r) 109 = None.
 Proof. vm_compute. repeat split; try reflexivity. eexists; reflexivity. Qed.
